@@ -71,16 +71,23 @@ structure Inverse (v : Vec) (m : List (Nat × Nat)) : Prop where
   fwd : ∀ i a, Vec.get v i = some a → find a m = some i
   bwd : ∀ a i, find a m = some i → Vec.get v i = some a
 
-/-- **the association invariant** of one observer of graph `g`: the four (slot vector, map) pairs
-are inverse of each other — each object has at most one graph id and one index and back — and
-associated ids are live in the graph -/
-structure OInv (g : G) (o : Obs) : Prop where
+/-- the association invariant against arbitrary "live node" / "live edge" predicates -/
+structure OInvP (N E : Nat → Bool) (o : Obs) : Prop where
   nodes : Inverse o.gN o.Ng
   edges : Inverse o.gE o.Eg
   nidx : Inverse o.iN o.Ni
   eidx : Inverse o.iE o.Ei
-  n_live : ∀ a i, find a o.Ng = some i → g.hasNode i = true
-  e_live : ∀ x e, find x o.Eg = some e → g.hasEdge e = true
+  n_live : ∀ a i, find a o.Ng = some i → N i = true
+  e_live : ∀ x e, find x o.Eg = some e → E e = true
+
+/-- **the association invariant** of one observer of graph `g`: the four (slot vector, map) pairs
+are inverse of each other — each object has at most one graph id and one index and back — and
+associated ids are live in the graph -/
+abbrev OInv (g : G) (o : Obs) : Prop := OInvP g.hasNode g.hasEdge o
+
+theorem OInvP.mono {N E N' E' : Nat → Bool} {o : Obs} (h : OInvP N E o)
+    (hn : ∀ n, N n = true → N' n = true) (he : ∀ e, E e = true → E' e = true) : OInvP N' E' o :=
+  ⟨h.nodes, h.edges, h.nidx, h.eidx, fun a i ha => hn i (h.n_live a i ha), fun x e hx => he e (h.e_live x e hx)⟩
 
 theorem Inverse.empty : Inverse [] [] := ⟨asc_nil, by simp [Vec.get], by simp [find]⟩
 
@@ -311,13 +318,13 @@ theorem setEdgeLinking_inv {g : G} {o o' : Obs} {a b x : Nat} (hi : OInv g o)
 
 /-! ### notifications -/
 
-theorem forgetEdgeIndex_inv {g : G} {o : Obs} (x : Nat) (hi : OInv g o) : OInv g (o.forgetEdgeIndex x) := by
+theorem forgetEdgeIndex_inv {N E : Nat → Bool} {o : Obs} (x : Nat) (hi : OInvP N E o) : OInvP N E (o.forgetEdgeIndex x) := by
   unfold Obs.forgetEdgeIndex
   split
   · rename_i i hf; exact ⟨hi.nodes, hi.edges, hi.nidx, hi.eidx.remove hf, hi.n_live, hi.e_live⟩
   · exact hi
 
-theorem forgetNodeIndex_inv {g : G} {o : Obs} (a : Nat) (hi : OInv g o) : OInv g (o.forgetNodeIndex a) := by
+theorem forgetNodeIndex_inv {N E : Nat → Bool} {o : Obs} (a : Nat) (hi : OInvP N E o) : OInvP N E (o.forgetNodeIndex a) := by
   unfold Obs.forgetNodeIndex
   split
   · rename_i i hf; exact ⟨hi.nodes, hi.edges, hi.nidx.remove hf, hi.eidx, hi.n_live, hi.e_live⟩
@@ -335,16 +342,16 @@ theorem forgetNodeIndex_same (o : Obs) (a : Nat) :
 
 /-- the observer forgets edge `e`; afterwards no object is associated to `e`, so the invariant
 holds against any graph that lost at most that edge -/
-theorem deletedEdge_inv {g g' : G} {o : Obs} {e : Nat} (hi : OInv g o)
-    (hn : ∀ n, g.hasNode n = true → g'.hasNode n = true)
-    (he : ∀ e', e' ≠ e → g.hasEdge e' = true → g'.hasEdge e' = true) : OInv g' (o.deletedEdge e) := by
+theorem deletedEdge_inv {N E N' E' : Nat → Bool} {o : Obs} {e : Nat} (hi : OInvP N E o)
+    (hn : ∀ n, N n = true → N' n = true)
+    (he : ∀ e', e' ≠ e → E e' = true → E' e' = true) : OInvP N' E' (o.deletedEdge e) := by
   unfold Obs.deletedEdge
   split
   · rename_i hlen
     split
     · rename_i x hx
       have hf := hi.edges.fwd e x hx
-      have h1 : OInv g { o with gE := Vec.put o.gE e none, Eg := AL.erase x o.Eg } :=
+      have h1 : OInvP N E { o with gE := Vec.put o.gE e none, Eg := AL.erase x o.Eg } :=
         ⟨hi.nodes, hi.edges.remove hf, hi.nidx, hi.eidx, hi.n_live, by
           intro y e' hy; simp only [find_erase] at hy; split at hy
           · cases hy
@@ -381,16 +388,16 @@ theorem deletedEdge_inv {g g' : G} {o : Obs} {e : Nat} (hi : OInv g o)
       omega
     exact he e' hne (hi.e_live y e' hy)
 
-theorem deletedNode_inv {g g' : G} {o : Obs} {n : Nat} (hi : OInv g o)
-    (hn : ∀ n', n' ≠ n → g.hasNode n' = true → g'.hasNode n' = true)
-    (he : ∀ e, g.hasEdge e = true → g'.hasEdge e = true) : OInv g' (o.deletedNode n) := by
+theorem deletedNode_inv {N E N' E' : Nat → Bool} {o : Obs} {n : Nat} (hi : OInvP N E o)
+    (hn : ∀ n', n' ≠ n → N n' = true → N' n' = true)
+    (he : ∀ e, E e = true → E' e = true) : OInvP N' E' (o.deletedNode n) := by
   unfold Obs.deletedNode
   split
   · rename_i hlen
     split
     · rename_i x hx
       have hf := hi.nodes.fwd n x hx
-      have h1 : OInv g { o with gN := Vec.put o.gN n none, Ng := AL.erase x o.Ng } :=
+      have h1 : OInvP N E { o with gN := Vec.put o.gN n none, Ng := AL.erase x o.Ng } :=
         ⟨hi.nodes.remove hf, hi.edges, hi.nidx, hi.eidx, by
           intro y e' hy; simp only [find_erase] at hy; split at hy
           · cases hy
